@@ -56,6 +56,8 @@ def seeds(work, tier):
     return out
 
 
+import hashlib as _h
+BIGGZ = gen.gz(gen.text_log([(E * 1000 + i * 10, b"big " + _h.sha256(b"%d" % i).hexdigest().encode()) for i in range(3000)]), 6)      # ~280 KB decoded
 JUNK_PRE = [b"garbage first line\n", b"\n", b"x" * 100 + b"\n", b"\x00\x00\x00\n", b"partial line without its beginning 12:34\n"]
 JUNK = [b"\x00", b"\n", b"\xff" * 8, b"x" * 16, b"\x00" * 512, b"\x00" * 4096, bytes(range(256)), "self", "bigger-member"]
 
@@ -139,6 +141,14 @@ def run(tier, seed, build=True):
                 continue
             for j in range(len(JUNK_PRE)):
                 cases.append((label, "prepend", fname, ("prepend", j)))
+        # files whose size sits on an internal threshold (block-zero analysis tables are keyed by the size of block zero:
+        # 8096; the default block size 65536), as text, as random bytes, and gz-compressed
+        for n in (8095, 8096, 8097, 65535, 65536, 65537):
+            for kind in ("text", "random", "text.gz"):
+                cases.append(("sized", "size-threshold", "s.log.gz" if kind == "text.gz" else "s.log", ("sized", n, kind)))
+        # a gz whose deflate stream is cut after more than one block of decoded data has been read successfully
+        for frac in (range(2, 16) if tier == "quick" else range(1, 64)):
+            cases.append(("biggz", "truncate-late", "big.log.gz", ("biggz", frac, 16 if tier == "quick" else 64)))
         # every seed under every other type-selecting name
         names = sorted({fname for _, fname, _, _ in sd} | {"x.journal.xz", "x.evtx.bz2", "lastlogx", "acct.1.gz", "x.tar"})
         for label, fname, data, offs in sd:
@@ -165,6 +175,24 @@ def run(tier, seed, build=True):
         def mutate(label, spec):
             if spec[0] == "raw":
                 return spec[1]
+            if spec[0] == "sized":
+                n, kind = spec[1], spec[2]
+                if kind == "random":
+                    import hashlib
+                    blob = b"".join(hashlib.sha256(b"%d" % i).digest() for i in range(n // 32 + 1))[:n]
+                    return blob[:200] + b"\n" + blob[201:4000] + b"\n" + blob[4001:]
+                lines = []
+                i = 0
+                while sum(len(x) for x in lines) < n - 80:
+                    lines.append(gen.ts0((E + i) * 1000) + b" sized message %05d\n" % i)
+                    i += 1
+                body = b"".join(lines)
+                body += gen.ts0((E + i) * 1000) + b" " + b"z" * (n - len(body) - 27) + b"\n"
+                assert len(body) == n
+                return gen.gz(body, 6) if kind == "text.gz" else body
+            if spec[0] == "biggz":
+                z = BIGGZ
+                return z[: len(z) * spec[1] // spec[2]]
             data = seedmap[label]
             if spec[0] == "asis":
                 return data
